@@ -89,8 +89,22 @@ class C19(Prop):
         idset = {tid(n) for n in ids}
         try:
             it = self.nums(iterate_tests(self.build(tree)))
-            f = filter_by_ids(self.build(tree), idset)
+            src = self.build(tree)
+            mine = set()
+
+            def walk(x, fn):
+                fn(x)
+                if isinstance(x, unittest.TestSuite):
+                    for y in list(x):
+                        walk(y, fn)
+            walk(src, lambda x: mine.add(id(x)))
+            f = filter_by_ids(src, idset)
             fshape, fit = self.shape(f), self.nums(iterate_tests(f))
+            # the suites filter_by_ids creates belong to the caller: adding tests to them must not show up in any later result
+            foreign = self.build(['case', 99999])
+            walk(f, lambda x: x.addTest(foreign) if isinstance(x, unittest.TestSuite) and id(x) not in mine else None)
+            if self.shape(filter_by_ids(self.build(tree), idset)) != fshape:
+                return ['raised', 'filter-result-depends-on-earlier-calls']
             try:
                 srt = some(self.shape(sorted_tests(self.build(tree))))
             except ValueError:
